@@ -161,8 +161,21 @@ def run_history(rng, version, flavour, steps, *, profile=None, calls=True, persi
     gen.ota_nodes = []
     gen.pending = []
 
-    # (no traffic before start_persistence(): the README requires persistence to be started before the gateway)
+    def early():
+        # The README asks for persistence to be started before the gateway, but a line may still race start_persistence()
+        # (the repository's own tests do this).  Id requests are left out: an id handed out before the file is loaded
+        # cannot take the file into account, whatever the library does.
+        for _ in range(rng.choice([0, 0, 1, 2, 3])):
+            ln = gen.line()
+            if ";3;0;3;" in ln or ";3;1;3;" in ln:
+                continue
+            drv.recv(ln + "\n")
+            if flavour == "sync" and rng.random() < 0.7:
+                while drv.gw.tasks.queue:
+                    drv.pump()
+
     if persist:
+        early()
         drv.start_persistence()
     if prefix == "mix":
         prefix = rng.choice([None, "sleep", "ota", "sleep"])
@@ -211,6 +224,7 @@ def run_history(rng, version, flavour, steps, *, profile=None, calls=True, persi
             if not mqtt and rng.random() < 0.4:
                 inflight = rng.choice(["255;255;3;0;3;\n", f"{gen.n()};255;0;0;17;2.0\n", gen.line() + "\n"])
             drv.stop_restart(inflight)
+            early()
             drv.start_persistence()
         elif gen.ota_nodes and x < 0.45:
             n = rng.choice(gen.ota_nodes)
